@@ -35,17 +35,17 @@ type wireObserver struct {
 	expectParity bool
 	gapAtClose   int64
 
-	segs     map[uint32][]byte // PUSH payload by sn (first sighting)
-	nextSn   uint32
-	nextOff  int64
-	written  func() int64 // bytes accepted from the writer so far
-	nonces   map[string]bool
-	dgrams   map[string]bool
-	haveID   bool
-	lastID   uint32
-	groups   map[uint32]*fecGroup
-	rs       reedsolomon.Encoder
-	paws     uint32
+	segs    map[uint32][]byte // PUSH payload by sn (first sighting)
+	nextSn  uint32
+	nextOff int64
+	written func() int64 // bytes accepted from the writer so far
+	nonces  map[string]bool
+	dgrams  map[string]bool
+	haveID  bool
+	lastID  uint32
+	groups  map[uint32]*fecGroup
+	rs      reedsolomon.Encoder
+	paws    uint32
 
 	// statistics
 	Datagrams, MultiSeg, Parity, OOB, Retrans, GroupsChecked, PureCtl, MaxLen int
